@@ -2,40 +2,85 @@
 (***************************************************************************)
 (* C20, second half: what a LoggingMonitor writes, and what                *)
 (* munge.write_raw_file / write_support_file / write_converge_file write,  *)
-(* can be read back as the same trajectory.                                *)
+(* can be read back as the same trajectory -- by logfile_reader,           *)
+(* read_history (from a log, a parameter file, a monitor, a solver, the    *)
+(* Null monitor), read_trajectories / read_monitor, read_raw_file /        *)
+(* read_support_file / read_converge_file / read_old_support_file, through *)
+(* the file converters, and by monitors._load.                             *)
 (*                                                                         *)
-(* A trajectory is the sequence of records [x, y, id] a monitor was called *)
-(* with: x a vector of `dim` values, y one value (scalar cost) or a vector *)
-(* of two values (vector-valued cost), id an integer or None.  A VALUE is  *)
-(* an index into a catalogue of concrete floats kept by the harness        *)
-(* (+-inf, nan, -0.0, 5e-324, 1.7e308, negatives, ints, ...): TLA+ has no  *)
-(* floats, and every file operation here only moves values around, so the  *)
-(* specification is about WHICH value ends up WHERE.  Record n of a        *)
-(* trajectory uses fresh consecutive catalogue entries starting at `off`   *)
-(* (fresh values make any transposition / mix-up of records visible).      *)
+(* A trajectory is the sequence of records a monitor was called with.  A   *)
+(* record is PLAIN (pop = 0: x a vector of `dim` values, y one cost) or    *)
+(* POPULATION-valued (pop = P >= 1: x a list of P vectors, y a list of P   *)
+(* costs); a cost is one value or a vector of two values (yvec); id is an  *)
+(* integer or None.  In this module every record is held in ONE shape,     *)
+(*     r.x[p][c]   coordinate c of member p,   r.y[p]  cost tuple of p,    *)
+(* a plain record being the case of a single member; MonX / MonY give what *)
+(* the monitor holds (and the caller passed) for it.  A VALUE is an index  *)
+(* into a catalogue of concrete floats kept by the harness (+-inf, nan,    *)
+(* -0.0, 5e-324, 1.7e308, negatives, ints, ...): TLA+ has no floats, and   *)
+(* every operation here only moves values around, so the specification is  *)
+(* about WHICH value ends up WHERE.  Record n of a trajectory uses fresh   *)
+(* consecutive catalogue entries starting at `off` (fresh values make any  *)
+(* transposition / mix-up of records, members or coordinates visible).     *)
 (*                                                                         *)
 (* State machine (one action per LoggingMonitor call):                     *)
-(*   Record(idv)  the monitor is called with the next record; if the call  *)
-(*                number (0-based) is a multiple of `ival` a line          *)
-(*                [it, id, y, x] is appended to the three-column log       *)
+(*   Record(idv)  the monitor is called with the next record (and with     *)
+(*                best = `best`); the monitor holds EVERY record; a line   *)
+(*                is appended to the three-column log iff ival > 0 and the *)
+(*                call number (0-based) is a multiple of `ival`            *)
+(*                (interval = 0 / None: the code sets it to inf, nothing   *)
+(*                is ever written).  The line is [it, id, y, x] with       *)
+(*                   all = TRUE (or a plain record): y, x as passed;       *)
+(*                   all = FALSE, population record: the cost and the      *)
+(*                     vector of member `best` only                        *)
+(*                (LoggingMonitor.__call__: self._y[-1][best] un-scaled,   *)
+(*                self._x[-1][best]).  all = FALSE with a plain record     *)
+(*                would index INTO the vector (x[best], y[best]): not a    *)
+(*                documented use, not enabled.                             *)
 (* The files/readers are operators on the state:                           *)
 (*   LogRead(log)          munge.logfile_reader(file, iter=True)           *)
-(*   HistRead(log)         munge.read_history(file, iter=True): the same   *)
-(*                         with params in 'support' layout                 *)
+(*                         = read_trajectories(file, iter=True)            *)
+(*   HistRead(log)         munge.read_history(file or file object,         *)
+(*                         iter=True): the same with params in 'support'   *)
+(*                         layout                                          *)
+(*   ReadMonitor(t)        munge.read_monitor(mon, id=True)                *)
+(*   TrajMon(t)            munge.read_trajectories(mon, iter=True)         *)
+(*   HistMon(t)            munge.read_history(mon, iter=True)              *)
+(*   HistSolver(t, sid)    munge.read_history(solver, iter=True), the      *)
+(*                         solver's generation monitor holding t, its id   *)
+(*                         being sid; also from the solver's restart file  *)
+(*   HistNull              munge.read_history(Null(), iter=True)           *)
 (*   RawFile / SupportFile / ConvergeFile (traj)   what write_*_file store *)
 (*   RawRead(file)         munge.read_raw_file(file, iter=True)            *)
 (*                         (= read_import(file,'id','params','cost') with  *)
 (*                          the ids expanded by munge._process_ids)        *)
-(* Layouts (munge.raw_to_converge / raw_to_support), dim = len(x):         *)
-(*   raw       params[i][c]    = x_i[c]                                    *)
-(*   converge  params[i][c]    = <<x_i[c]>>        (1-tuples)              *)
-(*   support   params[c][i]    = <<x_i[c]>>        (transposed; <<>> if    *)
-(*                                                  the trajectory is empty)*)
+(*   ReadSupportFile / ReadConvergeFile (file)     read_*_file(iter=True)  *)
+(*   RawToSupportConv / RawToConvergeConv / ConvergeToSupportConv (file)   *)
+(*                         the file written by munge.*_converter           *)
+(*   OldSupportFile(t), ReadOldSupport(file), OldToNewConv(file)           *)
+(*   Load(file)            monitors._load(path): the records of the        *)
+(*                         monitor it returns; LoadMeasures: its measure   *)
+(*                         views when the file carries npts                *)
+(*   ReduceIds(iter)       munge._reduce_ids                               *)
+(* Layouts.  munge has two conversions, both transpositions:               *)
+(*   raw_to_converge   every step [member][coordinate] becomes             *)
+(*                     [coordinate][member]; a step that is a plain vector *)
+(*                     is first wrapped as a population of one (the code   *)
+(*                     looks at steps[0][0] to tell: `nested` here).       *)
+(*                     Applied to its own output it reverts it.            *)
+(*   converge_to_support   the two outer levels are swapped                *)
+(* so that, with i the record, c the coordinate, p the member:             *)
+(*   raw       params[i][c]  (plain)  /  params[i][p][c]  (population)     *)
+(*   converge  params[i][c][p]                                             *)
+(*   support   params[c][i][p]       (<<>> if the trajectory is empty)     *)
+(*   old support  params[c][i]       (plain records only, no tuples)       *)
 (* C20 = the Rt* invariants: reading what was written gives the trajectory *)
 (* back (after undoing the layout).  The scaling factor k of the monitor   *)
 (* does not appear in any operator below: that IS the statement "cost      *)
-(* scaling by k is transparent" for files -- the expected file contents    *)
-(* are the same for every k.                                               *)
+(* scaling by k is transparent" for files and readers -- the expected      *)
+(* contents are the same for every k.  (One reader is not transparent by   *)
+(* design: a solver's energy_history is its monitor's STORED cost _y, so   *)
+(* read_history(solver) is bound for k in {None, 1} only.)                 *)
 (*                                                                         *)
 (* Where C20 is silent the spec follows the code and says so:              *)
 (*  * the log's iteration number is the 0-based call number of the monitor *)
@@ -44,34 +89,74 @@
 (*    if all ids are equal, else as the list of ids; _process_ids turns    *)
 (*    that into (i,) / (i, id) / (number of earlier records with the same  *)
 (*    id, id);  for an empty trajectory the reader returns no ids at all;  *)
-(*  * ids in files are integers or None (as documented in munge).          *)
+(*    a monitor's id list is treated like the list in a file; a solver     *)
+(*    has ONE id for all its records;                                      *)
+(*  * ids in files are integers or None (as documented in munge);          *)
+(*  * read_support_file / read_converge_file apply the layout conversion   *)
+(*    to what is already converted: read_converge_file gives the records   *)
+(*    back as populations params[i][p][c] (a plain record as a population  *)
+(*    of one), read_support_file gives params[p][c][i];                    *)
+(*  * the converters write no ids (they read the file without them);       *)
+(*  * read_old_support_file returns a monitor whose x is the support       *)
+(*    layout and whose costs are wrapped in 1-tuples;                      *)
+(*  * _load reads a file in SUPPORT layout and records member 0 of every   *)
+(*    record with its cost (a plain record: the record), ids None; on a    *)
+(*    raw file of plain records it raises.  Only _load(path) is modelled:  *)
+(*    the meaning of its (monitor, verbose) arguments is not documented;   *)
+(*  * an empty trajectory comes back with no id list at all (None, [], or  *)
+(*    -- from a solver -- the solver's bare id).                           *)
+(* Stated from the documented intent:                                      *)
+(*  * converge_to_support_converter turns a converge file into the support *)
+(*    file of the same trajectory (ConvIsSupport): it must read its input  *)
+(*    as written -- with read_raw_file; reading it with read_converge_file *)
+(*    (which has already reverted the layout) gives params[p][i][c], the   *)
+(*    defect repaired in /repo e2b2202.                                    *)
 (***************************************************************************)
 EXTENDS Integers, Sequences, FiniteSets, TLC, Json
 
 CONSTANTS Dims,       \* dimensions of x
-          Intervals,  \* LoggingMonitor(interval=...)
+          Intervals,  \* LoggingMonitor(interval=...); 0: never
           Ks,         \* scaling factors (None = 1000); transparent, see header
           YVecs,      \* subset of BOOLEAN: vector-valued cost or scalar cost
           Offs,       \* catalogue offsets
           NCat,       \* size of the value catalogue
           MaxRec,     \* longest trajectory
-          IdChoices   \* ids a record may carry (None = 1000)
+          IdChoices,  \* ids a record may carry (None = 1000)
+          Pops,       \* record shapes: 0 = plain, P >= 1 = population of P members
+          Alls,       \* subset of BOOLEAN: LoggingMonitor(all=...)
+          Bests,      \* the `best` passed with every call (0-based; used only when all = FALSE)
+          Sources     \* BOOLEAN: also emit what the other readers / sources / converters give
 
 None == 1000
 
-VARIABLES dim, ival, k, yvec, off,   \* chosen once
+VARIABLES dim, ival, k, yvec, off, pop, all, best,   \* chosen once
           traj,                      \* the records the monitor was called with
           log                        \* the lines of the three-column log file
-vars == <<dim, ival, k, yvec, off, traj, log>>
+vars == <<dim, ival, k, yvec, off, pop, all, best, traj, log>>
 
+NMem    == IF pop = 0 THEN 1 ELSE pop
 Val(j)  == ((off + j) % NCat) + 1
-Width   == dim + 2
-XOf(n)  == [c \in 1..dim |-> Val((n - 1) * Width + c - 1)]
-YOf(n)  == IF yvec THEN <<Val((n - 1) * Width + dim), Val((n - 1) * Width + dim + 1)>>
-                   ELSE <<Val((n - 1) * Width + dim)>>
+MWidth  == dim + 2                                   \* values used by one member
+Width   == NMem * MWidth
+Base(n, p) == (n - 1) * Width + (p - 1) * MWidth
+XOf(n)  == [p \in 1..NMem |-> [c \in 1..dim |-> Val(Base(n, p) + c - 1)]]
+YOf(n)  == [p \in 1..NMem |-> IF yvec THEN <<Val(Base(n, p) + dim), Val(Base(n, p) + dim + 1)>>
+                                       ELSE <<Val(Base(n, p) + dim)>>]
 Cost(y) == IF yvec THEN y ELSE y[1]          \* a scalar cost is the value itself
+(* what the caller passes and the monitor holds for a record *)
+MonX(r) == IF pop = 0 THEN r.x[1] ELSE r.x
+MonY(r) == IF pop = 0 THEN Cost(r.y[1]) ELSE [p \in 1..pop |-> Cost(r.y[p])]
+(* what a log line shows of it *)
+Whole   == all \/ pop = 0
+LineX(r) == IF Whole THEN MonX(r) ELSE r.x[best + 1]
+LineY(r) == IF Whole THEN MonY(r) ELSE Cost(r.y[best + 1])
+LinePop  == all /\ pop > 0                   \* the lines hold populations
 
 Init == /\ dim \in Dims /\ ival \in Intervals /\ k \in Ks /\ yvec \in YVecs /\ off \in Offs
+        /\ pop \in Pops /\ all \in Alls /\ best \in Bests
+        /\ pop = 0 => all                    \* all = FALSE is for population-valued records
+        /\ all => best = 0                   \* `best` is not looked at
+        /\ best < NMem
         /\ traj = << >> /\ log = << >>
 
 Record(idv) ==
@@ -79,44 +164,69 @@ Record(idv) ==
   /\ LET n == Len(traj) + 1
          r == [x |-> XOf(n), y |-> YOf(n), id |-> idv]
      IN  /\ traj' = Append(traj, r)
-         /\ log' = IF (n - 1) % ival = 0
-                   THEN Append(log, [it |-> n - 1, id |-> idv, y |-> r.y, x |-> r.x])
+         /\ log' = IF ival > 0 /\ (n - 1) % ival = 0
+                   THEN Append(log, [it |-> n - 1, id |-> idv, y |-> LineY(r), x |-> LineX(r)])
                    ELSE log
-  /\ UNCHANGED <<dim, ival, k, yvec, off>>
+  /\ UNCHANGED <<dim, ival, k, yvec, off, pop, all, best>>
 
 Next == \E idv \in IdChoices : Record(idv)
 Spec == Init /\ [][Next]_vars
 
 -----------------------------------------------------------------------------
 (* trajectories and layouts *)
-Xs(t)    == [i \in 1..Len(t) |-> t[i].x]
-Ys(t)    == [i \in 1..Len(t) |-> Cost(t[i].y)]
-IdsOf(t) == [i \in 1..Len(t) |-> t[i].id]
+X3(t)    == [i \in 1..Len(t) |-> t[i].x]                  \* params[i][p][c], every record as a population
+MonXs(t) == [i \in 1..Len(t) |-> MonX(t[i])]              \* Monitor.x
+MonYs(t) == [i \in 1..Len(t) |-> MonY(t[i])]              \* Monitor.y
+IdsOf(t) == [i \in 1..Len(t) |-> t[i].id]                 \* Monitor.id
 
-Converge(xs) == [i \in 1..Len(xs) |-> [c \in 1..dim |-> <<xs[i][c]>>]]
-Support(xs)  == IF Len(xs) = 0 THEN << >>
-                ELSE [c \in 1..dim |-> [i \in 1..Len(xs) |-> <<xs[i][c]>>]]
-UnConverge(ps)   == [i \in 1..Len(ps) |-> [c \in 1..dim |-> ps[i][c][1]]]
-UnSupport(ps, n) == [i \in 1..n |-> [c \in 1..dim |-> ps[c][i][1]]]
+Transpose(m) == IF Len(m) = 0 THEN << >>
+                ELSE [c \in 1..Len(m[1]) |-> [i \in 1..Len(m) |-> m[i][c]]]
+RawToConverge(steps, nested) ==
+  [i \in 1..Len(steps) |-> Transpose(IF nested THEN steps[i] ELSE <<steps[i]>>)]
+ConvergeToSupport(steps)     == Transpose(steps)
+RawToSupport(steps, nested)  == ConvergeToSupport(RawToConverge(steps, nested))
+
+Converge(t) == RawToConverge(MonXs(t), pop > 0)           \* params[i][c][p]
+Support(t)  == RawToSupport(MonXs(t), pop > 0)            \* params[c][i][p]
+(* undoing a layout: back to params[i][p][c]; m = members per record, n = records *)
+UnConverge(ps)      == RawToConverge(ps, TRUE)
+UnSupport(ps, n, m) == [i \in 1..n |-> [p \in 1..m |-> [c \in 1..dim |-> ps[c][i][p]]]]
 
 (* the three-column log *)
 IterOf(it, idv) == IF idv = None THEN <<it>> ELSE <<it, idv>>
 LogRead(l)  == [iter   |-> [i \in 1..Len(l) |-> IterOf(l[i].it, l[i].id)],
                 params |-> [i \in 1..Len(l) |-> l[i].x],
-                cost   |-> [i \in 1..Len(l) |-> Cost(l[i].y)]]
-HistRead(l) == [LogRead(l) EXCEPT !.params = Support(@)]
+                cost   |-> [i \in 1..Len(l) |-> l[i].y]]
+HistRead(l) == [LogRead(l) EXCEPT !.params = RawToSupport(@, LinePop)]
+
+(* ids: munge._process_ids on a list of ids, and its inverse munge._reduce_ids *)
+ProcessIdList(ids) ==
+  IF \A i \in 1..Len(ids) : ids[i] = None
+    THEN [i \in 1..Len(ids) |-> <<i - 1>>]
+    ELSE [i \in 1..Len(ids) |-> <<Cardinality({j \in 1..(i - 1) : ids[j] = ids[i]}), ids[i]>>]
+ReduceIds(it) ==
+  IF Len(it) > 0 /\ Len(it[1]) = 1 THEN [i \in 1..Len(it) |-> None]
+                                    ELSE [i \in 1..Len(it) |-> it[i][Len(it[i])]]
+
+(* a monitor, a solver, the Null monitor as sources *)
+ReadMonitor(t) == <<MonXs(t), MonYs(t), IdsOf(t)>>
+TrajMon(t) == [iter |-> ProcessIdList(IdsOf(t)), params |-> MonXs(t), cost |-> MonYs(t)]
+HistMon(t) == [TrajMon(t) EXCEPT !.params = Support(t)]
+HistSolver(t, sid) == [HistMon(t) EXCEPT !.iter = [i \in 1..Len(t) |-> IterOf(i - 1, sid)]]
+HistNull == [iter |-> << >>, params |-> << >>, cost |-> << >>]
 
 (* the parameter files: a file is a record of the variables assigned in it *)
+NoId == [kind |-> "none", one |-> None, list |-> << >>]
 IdField(t) ==
   IF Len(t) = 0 \/ \A i \in 1..Len(t) : t[i].id = None
-    THEN [kind |-> "none", one |-> None, list |-> << >>]
+    THEN NoId
   ELSE IF \A i \in 1..Len(t) : t[i].id = t[1].id
     THEN [kind |-> "one", one |-> t[1].id, list |-> << >>]
   ELSE [kind |-> "list", one |-> None, list |-> IdsOf(t)]
 
-RawFile(t)      == [id |-> IdField(t), params |-> Xs(t), cost |-> Ys(t)]
-SupportFile(t)  == [RawFile(t) EXCEPT !.params = Support(@)]
-ConvergeFile(t) == [RawFile(t) EXCEPT !.params = Converge(@)]
+RawFile(t)      == [id |-> IdField(t), params |-> MonXs(t), cost |-> MonYs(t)]
+SupportFile(t)  == [RawFile(t) EXCEPT !.params = Support(t)]
+ConvergeFile(t) == [RawFile(t) EXCEPT !.params = Converge(t)]
 
 ProcessIds(f, n) ==       \* munge._process_ids
   CASE f.kind = "none" -> [i \in 1..n |-> <<i - 1>>]
@@ -124,45 +234,155 @@ ProcessIds(f, n) ==       \* munge._process_ids
     [] f.kind = "list" -> [i \in 1..n |->
                              <<Cardinality({j \in 1..(i - 1) : f.list[j] = f.list[i]}), f.list[i]>>]
 RawRead(f) == [iter |-> ProcessIds(f.id, Len(f.cost)), params |-> f.params, cost |-> f.cost]
+(* the readers named after a layout re-apply the conversion (see header) *)
+ReadSupportFile(f)  == [RawRead(f) EXCEPT !.params = RawToSupport(@, TRUE)]      \* params[p][c][i]
+ReadConvergeFile(f) == [RawRead(f) EXCEPT !.params = RawToConverge(@, TRUE)]     \* params[i][p][c]
+
+(* the file converters: read without ids, convert, write_raw_file *)
+RawToSupportConv(f)      == [id |-> NoId, params |-> RawToSupport(f.params, pop > 0), cost |-> f.cost]
+RawToConvergeConv(f)     == [id |-> NoId, params |-> RawToConverge(f.params, pop > 0), cost |-> f.cost]
+ConvergeToSupportConv(f) == [id |-> NoId, params |-> ConvergeToSupport(f.params), cost |-> f.cost]
+
+(* the old support format (plain records): params[c][i], no tuples *)
+OldSupportFile(t) == [id |-> NoId, params |-> Transpose(MonXs(t)), cost |-> MonYs(t)]
+ReadOldSupport(f) == [x |-> [c \in 1..Len(f.params) |-> [i \in 1..Len(f.params[c]) |-> <<f.params[c][i]>>]],
+                      y |-> [i \in 1..Len(f.cost) |-> <<f.cost[i]>>]]
+OldToNewConv(f)   == [id |-> NoId, params |-> ReadOldSupport(f).x, cost |-> ReadOldSupport(f).y]
+
+(* monitors._load on a file in support layout: member 0 of every record, its cost, no id *)
+Load(f) == [i \in 1..Len(f.cost) |-> [x |-> [c \in 1..Len(f.params) |-> f.params[c][i][1]], y |-> f.cost[i]]]
+(* ... and the measure views of the loaded monitor when the file carries npts (write_support_file(.., npts=..)):
+   x is read as len(npts) blocks [weights(n_b), positions(n_b)]; Monitor._wts / _pos are the 0-based coordinate
+   indices (tools.measure_indices: the positions of block b start npts[0] after its weights -- equal block sizes),
+   .wts / .pos the projections x[:, _wts] / x[:, _pos] reshaped to [record][block][entry] *)
+SumTo(q, b) == LET F[j \in 0..b] == IF j = 0 THEN 0 ELSE F[j - 1] + q[j] IN F[b]
+Flat(q) == LET F[j \in 0..Len(q)] == IF j = 0 THEN << >> ELSE F[j - 1] \o q[j] IN F[Len(q)]
+WtsIdx(npts) == [b \in 1..Len(npts) |-> [j \in 1..npts[b] |-> 2 * SumTo(npts, b - 1) + j - 1]]
+PosIdx(npts) == [b \in 1..Len(npts) |-> [j \in 1..npts[b] |-> 2 * SumTo(npts, b - 1) + npts[1] + j - 1]]
+Project(recs, idx) == [i \in 1..Len(recs) |-> [b \in 1..Len(idx) |-> [j \in 1..Len(idx[b]) |-> recs[i].x[idx[b][j] + 1]]]]
+LoadMeasures(f, npts) == [iwts |-> Flat(WtsIdx(npts)), ipos |-> Flat(PosIdx(npts)),
+                          wts |-> Project(Load(f), WtsIdx(npts)), pos |-> Project(Load(f), PosIdx(npts))]
+NptsFor(d) == CASE d = 2 -> <<(<<1>>)>> [] d = 4 -> <<(<<2>>), (<<1, 1>>)>> [] OTHER -> << >>
 
 -----------------------------------------------------------------------------
 (* C20: write then read is the identity on the trajectory *)
-NSel   == (Len(traj) + ival - 1) \div ival                  \* number of calls that are logged
+NSel   == IF ival = 0 THEN 0 ELSE (Len(traj) + ival - 1) \div ival   \* number of calls that are logged
 Logged == [j \in 1..NSel |-> traj[(j - 1) * ival + 1]]      \* closed form; `log` is built stepwise
+LMem   == IF LinePop THEN pop ELSE 1                        \* members a log line shows
+LoggedX3 == [j \in 1..NSel |-> IF Whole THEN Logged[j].x ELSE <<Logged[j].x[best + 1]>>]
 
 RtLog ==
   LET r == LogRead(log) IN
-    /\ r.params = Xs(Logged) /\ r.cost = Ys(Logged)
+    /\ r.params = [j \in 1..NSel |-> LineX(Logged[j])] /\ r.cost = [j \in 1..NSel |-> LineY(Logged[j])]
     /\ Len(r.iter) = NSel
     /\ \A j \in 1..NSel : r.iter[j] = IterOf((j - 1) * ival, Logged[j].id)
-RtLogAll == ival = 1 => LogRead(log).params = Xs(traj) /\ LogRead(log).cost = Ys(traj)
+RtLogAll == (ival = 1 /\ Whole) => LogRead(log).params = MonXs(traj) /\ LogRead(log).cost = MonYs(traj)
+(* all = FALSE: exactly the best member's vector and cost, as a plain record *)
+RtLogBest == ~Whole => \A j \in 1..NSel : /\ LogRead(log).params[j] = Logged[j].x[best + 1]
+                                          /\ LogRead(log).cost[j] = Cost(Logged[j].y[best + 1])
+(* nothing is ever written with interval 0; the monitor holds every record whatever is written *)
+RtNever    == ival = 0 => log = << >>
+MonHoldsAll == Len(ReadMonitor(traj)[1]) = Len(traj) /\ Len(HistMon(traj).cost) = Len(traj)
 RtHist ==
   LET r == HistRead(log) IN
-    /\ UnSupport(r.params, NSel) = Xs(Logged) /\ r.cost = Ys(Logged)
+    /\ UnSupport(r.params, NSel, LMem) = LoggedX3
+    /\ r.cost = LogRead(log).cost
     /\ r.iter = LogRead(log).iter
 RtRaw ==
   LET r == RawRead(RawFile(traj)) IN
-    /\ r.params = Xs(traj) /\ r.cost = Ys(traj)
+    /\ r.params = MonXs(traj) /\ r.cost = MonYs(traj)
     /\ \A i \in 1..Len(traj) :
          IF \A j \in 1..Len(traj) : traj[j].id = None
            THEN r.iter[i] = <<i - 1>>
            ELSE r.iter[i][2] = traj[i].id
 RtSupport  == LET r == RawRead(SupportFile(traj))
-              IN  UnSupport(r.params, Len(traj)) = Xs(traj) /\ r.cost = Ys(traj)
+              IN  UnSupport(r.params, Len(traj), NMem) = X3(traj) /\ r.cost = MonYs(traj)
 RtConverge == LET r == RawRead(ConvergeFile(traj))
-              IN  UnConverge(r.params) = Xs(traj) /\ r.cost = Ys(traj)
-(* read_history of a log and of a support file agree on params and cost when every call is logged *)
-HistIsSupport == ival = 1 => /\ HistRead(log).params = SupportFile(traj).params
-                             /\ HistRead(log).cost = SupportFile(traj).cost
+              IN  UnConverge(r.params) = X3(traj) /\ r.cost = MonYs(traj)
+(* read_history of a log and of a support file agree on params and cost when every call is logged in full *)
+HistIsSupport == (ival = 1 /\ Whole) => /\ HistRead(log).params = SupportFile(traj).params
+                                        /\ HistRead(log).cost = SupportFile(traj).cost
+(* a monitor / a solver as the source: the whole trajectory in support layout, as from its support file *)
+RtHistMon ==
+  LET r == HistMon(traj) IN
+    /\ UnSupport(r.params, Len(traj), NMem) = X3(traj) /\ r.cost = MonYs(traj)
+    /\ r.params = SupportFile(traj).params
+    /\ Len(traj) > 0 => r.iter = RawRead(SupportFile(traj)).iter
+    /\ \A sid \in {None, 4} : LET s == HistSolver(traj, sid) IN
+         /\ s.params = r.params /\ s.cost = r.cost
+         /\ \A i \in 1..Len(traj) : s.iter[i] = IterOf(i - 1, sid)
+(* _reduce_ids undoes _process_ids *)
+RtIds ==
+  /\ ReduceIds(TrajMon(traj).iter) = IdsOf(traj)
+  /\ ReduceIds(RawRead(RawFile(traj)).iter) = IdsOf(traj)
+  /\ ((\A j \in 1..NSel : Logged[j].id = None) \/ (\A j \in 1..NSel : Logged[j].id # None))
+        => ReduceIds(LogRead(log).iter) = IdsOf(Logged)      \* (it looks at the first entry only to tell)
+(* the readers named after a layout: the trajectory is what they return, up to the stated layout *)
+RtReadSupport ==
+  LET r == ReadSupportFile(SupportFile(traj)) IN
+    /\ r.cost = MonYs(traj) /\ r.iter = RawRead(RawFile(traj)).iter
+    /\ Len(traj) > 0 =>
+         [i \in 1..Len(traj) |-> [p \in 1..NMem |-> [c \in 1..dim |-> r.params[p][c][i]]]] = X3(traj)
+RtReadConverge ==
+  LET r == ReadConvergeFile(ConvergeFile(traj)) IN
+    r.params = X3(traj) /\ r.cost = MonYs(traj) /\ r.iter = RawRead(RawFile(traj)).iter
+(* the converters: the converted file is the file the matching writer writes, ids apart *)
+ConvIsSupport ==
+  /\ RawToSupportConv(RawFile(traj)).params = SupportFile(traj).params
+  /\ RawToConvergeConv(RawFile(traj)).params = ConvergeFile(traj).params
+  /\ ConvergeToSupportConv(ConvergeFile(traj)).params = SupportFile(traj).params
+  /\ ConvergeToSupportConv(RawToConvergeConv(RawFile(traj))) = RawToSupportConv(RawFile(traj))
+RtOld ==
+  pop = 0 =>
+    LET m == ReadOldSupport(OldSupportFile(traj))
+        f == OldToNewConv(OldSupportFile(traj))
+    IN  /\ Len(traj) > 0 => m.x = Support(traj)
+        /\ m.y = [i \in 1..Len(traj) |-> <<MonYs(traj)[i]>>]
+        /\ f.params = m.x /\ f.cost = m.y
+(* _load gives back the records (a population: its member 0), from the writer's file and from a converted one *)
+RtLoad ==
+  /\ Load(SupportFile(traj)) = [i \in 1..Len(traj) |-> [x |-> traj[i].x[1], y |-> MonY(traj[i])]]
+  /\ Load(RawToSupportConv(RawFile(traj))) = Load(SupportFile(traj))
+  /\ pop = 0 => \A i \in 1..Len(traj) : Load(SupportFile(traj))[i].x = MonX(traj[i])
+(* the measure views only pick coordinates: every coordinate of x is a weight or a position of exactly one block *)
+RtMeasures ==
+  \A q \in 1..Len(NptsFor(dim)) :
+    LET npts == NptsFor(dim)[q]
+        m == LoadMeasures(SupportFile(traj), npts)
+    IN  /\ Len(m.iwts) + Len(m.ipos) = dim
+        /\ \A c \in 0..(dim - 1) : (\E j \in 1..Len(m.iwts) : m.iwts[j] = c) # (\E j \in 1..Len(m.ipos) : m.ipos[j] = c)
+        /\ \A i \in 1..Len(traj) : Flat(m.wts[i]) = [j \in 1..Len(m.iwts) |-> traj[i].x[1][m.iwts[j] + 1]]
+        /\ \A i \in 1..Len(traj) : Flat(m.pos[i]) = [j \in 1..Len(m.ipos) |-> traj[i].x[1][m.ipos[j] + 1]]
 
 -----------------------------------------------------------------------------
 (* emission: every reachable state = one trajectory with everything the readers must return *)
-Emit == PrintT(<<"@@", ToJson(
-  [dim |-> dim, ival |-> ival, k |-> k, yvec |-> yvec, off |-> off,
-   traj |-> [i \in 1..Len(traj) |-> <<traj[i].x, Cost(traj[i].y), traj[i].id>>],
-   log  |-> LET r == LogRead(log) IN <<r.iter, r.params, r.cost>>,
-   hist |-> LET r == HistRead(log) IN <<r.iter, r.params, r.cost>>,
-   raw  |-> LET r == RawRead(RawFile(traj)) IN <<r.iter, r.params, r.cost>>,
-   sup  |-> LET r == RawRead(SupportFile(traj)) IN <<r.iter, r.params, r.cost>>,
-   con  |-> LET r == RawRead(ConvergeFile(traj)) IN <<r.iter, r.params, r.cost>>])>>)
+Tri(r) == <<r.iter, r.params, r.cost>>
+Basic ==
+  [dim |-> dim, ival |-> ival, k |-> k, yvec |-> yvec, off |-> off, pop |-> pop, all |-> all, best |-> best,
+   traj |-> [i \in 1..Len(traj) |-> <<MonX(traj[i]), MonY(traj[i]), traj[i].id>>],
+   log  |-> Tri(LogRead(log)),
+   hist |-> Tri(HistRead(log)),
+   raw  |-> Tri(RawRead(RawFile(traj))),
+   sup  |-> Tri(RawRead(SupportFile(traj))),
+   con  |-> Tri(RawRead(ConvergeFile(traj)))]
+More ==
+  [mon   |-> ReadMonitor(traj),
+   tmon  |-> Tri(TrajMon(traj)),
+   hmon  |-> Tri(HistMon(traj)),
+   hsolv |-> <<HistSolver(traj, None).iter, HistSolver(traj, 4).iter>>,
+   hnull |-> Tri(HistNull),
+   red   |-> <<ReduceIds(TrajMon(traj).iter), ReduceIds(LogRead(log).iter), ReduceIds(RawRead(RawFile(traj)).iter)>>,
+   rsup  |-> Tri(ReadSupportFile(SupportFile(traj))),
+   rcon  |-> Tri(ReadConvergeFile(ConvergeFile(traj))),
+   r2s   |-> Tri(RawRead(RawToSupportConv(RawFile(traj)))),
+   r2c   |-> Tri(RawRead(RawToConvergeConv(RawFile(traj)))),
+   c2s   |-> Tri(RawRead(ConvergeToSupportConv(ConvergeFile(traj)))),
+   old   |-> IF pop = 0 THEN <<ReadOldSupport(OldSupportFile(traj)).x, ReadOldSupport(OldSupportFile(traj)).y>> ELSE << >>,
+   o2n   |-> IF pop = 0 THEN Tri(RawRead(OldToNewConv(OldSupportFile(traj)))) ELSE << >>,
+   load  |-> [i \in 1..Len(traj) |-> <<Load(SupportFile(traj))[i].x, Load(SupportFile(traj))[i].y>>],
+   meas  |-> [q \in 1..Len(NptsFor(dim)) |->
+                LET m == LoadMeasures(SupportFile(traj), NptsFor(dim)[q])
+                IN  <<NptsFor(dim)[q], m.iwts, m.ipos, m.wts, m.pos>>]]
+Emit == IF Sources THEN PrintT(<<"@@", ToJson([b |-> Basic, m |-> More])>>)
+                   ELSE PrintT(<<"@@", ToJson(Basic)>>)
 =============================================================================
